@@ -468,9 +468,15 @@ class ValueMon(Monitor):
                 self.supplied[actor.name] = self.supplied.get(actor.name, 0) + t[8]
             if isinstance(w.dev.get(t[3]), Sink):
                 self.received[t[3]] = self.received.get(t[3], 0) + t[8]
+        last_cost = {}
         for t in w.hub.tlog:
-            if t[0] == 'start_work':
-                self.costs += w.dev[t[1]].wo_table.get(t[2], (0, 0, 0))[2]
+            if t[0] == 'wo_cost':
+                last_cost[(t[1], t[2])] = t[3]           # what the target reported for this order
+            elif t[0] == 'start_work':
+                c_ = last_cost.get((t[1], t[2]))
+                if c_ is None:
+                    raise Violation('maintainer_value', f'order ({t[1]},{t[2]}) started without its cost being asked')
+                self.costs += c_
             elif t[0] == 'addvalue':
                 self.booked[t[1]] = self.booked.get(t[1], 0) + t[2]
         self.check(w, False)
@@ -618,6 +624,8 @@ class CycleMon(Monitor):
                     c = sp['cycles'][i % len(sp['cycles'])]
                     self.cur[name] = c
                 off = sp['offsets'][i % len(sp['offsets'])] if sp.get('offsets') else 0
+                if isinstance(off, (list, tuple)):
+                    off = sum(off)
                 need = max(0, c + off)
                 self.acc[name] = [t[2], need, 0]
                 if need == 0:
@@ -1233,7 +1241,8 @@ class ScheduleMon(Monitor):
     def add(self, d, t0):
         '''t0: the time at which the scheduler starts (0, or its creation time when created while running).'''
         self.specs[d['name']] = d
-        self.ref[d['name']] = {'idx': 0, 'state': None, 'next': None, 'reg': [list(x) for x in d.get('targets', [])],
+        self.ref[d['name']] = {'idx': 0, 'state': None, 'next': None,
+                               'reg': [[x[0], 'override' if x[1] == 'creator' else x[1]] for x in d.get('targets', [])],
                                't0': t0, 'nrec': 0, 'started': False}
 
     def created(self, w, d, t0):
@@ -1430,6 +1439,10 @@ class SensorMon(Monitor):
     def after(self, w, label, ev):
         now = w.env.now
         tl = w.hub.tlog
+        for t in tl:
+            if t[0] == 'series_misaligned':
+                raise Violation('series', f'{t[1]} at t={t[2]}: while the on-sense callbacks run the stored series have different '
+                                          f'lengths {t[3]} (every series keeps exactly the last min(count, capacity) entries)')
         for name, r in self.ref.items():
             if name not in w.dev:
                 continue
